@@ -67,8 +67,16 @@ def run_shards(prop, tier, seed, nshards, repo, budget_s, watchdog_s, work, repl
                                    stdout=lf, stderr=subprocess.STDOUT, timeout=watchdog_s)
             rc = p.returncode
         except subprocess.TimeoutExpired:
+            if os.path.exists(job["out"] + ".partial"):
+                r = json.load(open(job["out"] + ".partial"))
+                r.update({"ok": False, "partial": True, "error": f"watchdog {watchdog_s}s fired (inconclusive); violations recorded before that are kept", "shard": job["shard"]})
+                return r
             return {"ok": False, "error": f"watchdog {watchdog_s}s fired (inconclusive)", "shard": job["shard"]}
         if not os.path.exists(job["out"]):
+            if os.path.exists(job["out"] + ".partial"):
+                r = json.load(open(job["out"] + ".partial"))
+                r.update({"ok": False, "partial": True, "error": f"worker died rc={rc}; violations recorded before that are kept", "shard": job["shard"], "trace": open(log).read()[-1500:]})
+                return r
             tail = open(log).read()[-1500:]
             return {"ok": False, "error": f"worker died rc={rc}", "trace": tail, "shard": job["shard"], "signal": rc in (-4, -6, -7, -8, -11)}  # ILL ABRT BUS FPE SEGV; a SIGKILL (OOM) stays inconclusive
         r = json.load(open(job["out"]))
